@@ -14,6 +14,7 @@ import JanetModel.Parse.InsertPure
 import JanetModel.Parse.CapLemmas
 import JanetModel.Parse.EofClean
 import JanetModel.Parse.PhysRun
+import JanetModel.Parse.PhysInsert
 
 namespace JanetModel.Props.C11
 open JanetModel.Parse JanetModel.PP JanetModel.Gen.Parse
@@ -713,6 +714,40 @@ theorem phys_machine_source_ops : memOps = [
     has a non-empty scratch buffer -/
 theorem token_scratch_nonempty (scan : List B → Option String) (ops : List OpM) :
     TokInv (ops.foldl (runOpL scan) Parser.init) := (runOpsM_spec scan ops MP.init pinv_init).2.2.tok
+
+/-- `parser/state :delimiters` on the physical machine: the delimiters are pushed BEHIND the scratch contents inside the grown block, read
+    back and the count restored -- the parser is unchanged and no check fails, from EVERY machine state -/
+theorem phys_state_query_safe (m : MP) :
+    (stateDelimsM m).1 = delimiters m.p ∧ (stateDelimsM m).2.p = m.p ∧ (stateDelimsM m).2.fault = m.fault := stateDelimsM_spec m
+
+/-- `janet_parser_clone` on the physical machine: the `memcpy`s read `count ≤ capacity` elements of the source blocks; the clone has
+    exactly-fitting fresh blocks (so every older `JanetParseState *` is foreign to it: new generation) -/
+theorem phys_clone_safe (m : MP) : (cloneM m).p = clone m.p ∧ (cloneM m).fault = m.fault ∧ (cloneM m).k = cloneK m.p ∧
+    (cloneM m).sgen ≠ m.sgen := ⟨(cloneM_spec m).1, (cloneM_spec m).2.1, (cloneM_spec m).2.2, Nat.succ_ne_self _⟩
+
+/-- ★ `parser/insert` on the physical machine (finish a pending token through `janet_parser_consume`, recompute `s`, `s--` past a comment
+    frame, `s->argn++`, `push_arg` / one-jump growth of the scratch buffer + `memcpy`): computes `Model.insert`, keeps the invariants, and
+    no check fails.  `if (s->flags & PFLAG_COMMENT) s--;` stays inside the block because a frame handled by `root` (so the bottom frame)
+    never carries PFLAG_COMMENT: `NoCF`, an invariant of every operation (`Parse/NoCF.lean`). -/
+theorem phys_insert_safe (scan : List B → Option String) (m : MP) (v : Value) (vstr : List B) (h : PInv m.p) (hn : NoCF m.p) :
+    (insertM scan m v vstr).1.p = (insert scan m.p v vstr).1 ∧ (insertM scan m v vstr).2 = (insert scan m.p v vstr).2 ∧
+    (insertM scan m v vstr).1.fault = m.fault ∧ PInv (insert scan m.p v vstr).1 := insertM_safe scan m v vstr h hn
+
+/-- ★ the COMPLETE parser API on the physical machine: ANY history of bytes (also on a latched / dead parser), eof, produce,
+    produce-wrapped, flush, error, `parser/insert` of any value anywhere, clone-and-continue and `parser/state` from
+    `janet_parser_init`: no checked memory access fails, the machine's parser is the logical model's after the same history, and
+    `count ≤ capacity` for the three blocks -/
+theorem phys_api_history_safe (scan : List B → Option String) (ops : List OpF) :
+    (ops.foldl (runOpF scan) MP.init).fault = false ∧ (ops.foldl (runOpF scan) MP.init).p = ops.foldl (runOpFL scan) Parser.init ∧
+    CapOK (ops.foldl (runOpF scan) MP.init).k (ops.foldl (runOpF scan) MP.init).p := by
+  obtain ⟨h1, h2⟩ := runOpsF_spec scan ops MP.init pinv_init NoCF_init
+  exact ⟨h2, h1, (ops.foldl (runOpF scan) MP.init).capok⟩
+
+example : ([OpF.byte 40, .byte 35, .insert (.kw [97]) [97], .byte 10, .byte 34, .byte 120, .state, .insert .nil [110, 105, 108], .clone,
+    .byte 34, .byte 41, .produce, .eof].foldl (runOpF (fun _ => none)) MP.init).k = ⟨4, 3, 4⟩ := by decide +kernel
+
+example : (insertM (fun _ => none) (feedM (fun _ => none) MRun.init [40, 35, 32]).m (.kw [97]) [97]).1.fault = false := by decide +kernel
+example : (insertM (fun _ => none) (feedM (fun _ => none) MRun.init [40, 34, 97]).m .nil [110, 105, 108]).1.k = ⟨8, 6, 0⟩ := by decide +kernel
 
 -- non-vacuity: a run that grows all three blocks, pops containers, dedents a long string and reports an error; and the checks are live
 example : (finishM (fun _ => none) (feedM (fun _ => none) MRun.init
